@@ -261,6 +261,11 @@ impl HCtx {
             "gcv" => ("gcv", format!("/v1/client/get-child-version/{segs}")),
             "as" => ("as", format!("/v1/client/add-snapshot/{segs}")),
             "snap" => ("snap", "/v1/client/snapshot".to_string()),
+            // the same routes with a query string (not part of the route)
+            "avq" => ("av", format!("/v1/client/add-version/{segs}?retry=1")),
+            "gcvq" => ("gcv", format!("/v1/client/get-child-version/{segs}?x=%2F&y")),
+            "asq" => ("as", format!("/v1/client/add-snapshot/{segs}?")),
+            "snapq" => ("snap", "/v1/client/snapshot?client=other".to_string()),
             "unknown1" => ("unknown", "/v1/client/nope".to_string()),
             "unknown2" => ("unknown", format!("/v1/client/add-version/{segs}/extra")),
             "unknown3" => ("unknown", "/v2/client/snapshot".to_string()),
